@@ -951,7 +951,7 @@ class Parser:
         verbose: bool = False,
     ) -> ast.Module | None:
         """Parse a file or string."""
-        with open(path) as f:
+        with open(path, encoding="utf-8") as f:
             tok_stream = generate_tokens(f.readline)
             tokenizer = Tokenizer(tok_stream, verbose=verbose, path=str(path))
             parser = cls(
